@@ -734,7 +734,7 @@ func (f *formatFMP4) initialize() bool {
 							return nil
 						}
 
-						var dt time.Duration
+						var samples int64
 
 						for _, frame := range u.Payload.(unit.PayloadMPEG1Audio) {
 							var h mpeg1audio.FrameHeader
@@ -750,19 +750,21 @@ func (f *formatFMP4) initialize() bool {
 								f.updateCodecParams()
 							}
 
+							// start of the frame on the clock of the format, converted exactly from the samples before it
+							pts := u.PTS + multiplyAndDivide(samples, int64(clockRate), int64(h.SampleRate))
+
 							err = track.write(&formatFMP4Sample{
 								Sample: &fmp4.Sample{
 									Payload: frame,
 								},
-								dts: u.PTS + u.PTS,
-								ntp: u.NTP,
+								dts: pts,
+								ntp: u.NTP.Add(timestampToDuration(pts-u.PTS, clockRate)),
 							})
 							if err != nil {
 								return err
 							}
 
-							dt += time.Duration(h.SampleCount()) *
-								time.Second / time.Duration(h.SampleRate)
+							samples += int64(h.SampleCount())
 						}
 
 						return nil
